@@ -8,5 +8,5 @@ CONSTANTS
   MaxCrash = 2
   MaxFlush = 3
 SPECIFICATION MCSpec
-INVARIANTS AckNotAhead NoLoss NoReapply FlushedResolves NoIdReuse
+INVARIANTS AckNotAhead NoLoss NoReapply FlushedResolves NoIdReuse IndexedResolves AckedDataIndexed
 CHECK_DEADLOCK FALSE
